@@ -353,6 +353,7 @@ def backtest_spec(
     allow_mult=True,
     deterministic_children=False,
     max_sub=2,
+    depth3=False,
 ):
     ds = draw(dates(min_dates, max_dates, kinds=date_kinds))
     n = len(ds)
@@ -379,6 +380,23 @@ def backtest_spec(
             name = "s%d" % (i + 1)
             subnames.append(name)
             kids.append({"name": name, "kind": "Strategy", "algos": algos, "children": [draw(sec_child(t, allow_mult)) for t in sub_t]})
+        if depth3:
+            # wrap the sub-strategies into a middle strategy whose own (calendar-gated) stack allocates among them
+            mid_own = draw(st.lists(st.sampled_from(clean), min_size=0, max_size=1, unique=True))
+            mid_uni = subnames + mid_own
+            if draw(st.integers(0, 2)) != 0:
+                # allocation by the children's own price history: what each child is worth to the parent must be its true index
+                malgos = [
+                    draw(calendar_gate()),
+                    ["SelectAll", {}],
+                    ["SelectMomentum", {"n": draw(st.integers(1, max(1, len(mid_uni) - 1))), "lookback": _lb(draw, ds), "lag": {"days": draw(st.sampled_from([0, 0, 1]))}, "sort_descending": draw(st.booleans()), "all_or_none": False}],
+                    ["WeighEqually", {}],
+                    ["Rebalance", {}],
+                ]
+            else:
+                malgos, _ = draw(stack(ds, mid_uni, mid_uni, frames, gated="calendar", allow_short=False, allow_risk=False, allow_flow=False, scale_free=scale_free or deterministic_children, rot=False, pr=pr))
+            kids = [{"name": "m1", "kind": "Strategy", "algos": malgos, "children": kids + [draw(sec_child(t, allow_mult)) for t in mid_own]}]
+            subnames = ["m1"]
         own = draw(st.lists(st.sampled_from(clean), min_size=0, max_size=len(clean), unique=True))
         kids += [draw(sec_child(t, allow_mult)) for t in own]
         uni = subnames + own
